@@ -3,3 +3,4 @@ pub mod watermark;
 pub mod window;
 pub mod store;
 pub mod agenda;
+pub mod rete;
